@@ -18,6 +18,10 @@ pub struct FragState {
     pub max_request: usize,
     pub written: Vec<u8>,
     pub write_calls: u64,
+    /// k >= 2: every k-th read call that finds data is interrupted (ErrorKind::Interrupted, nothing consumed)
+    pub interrupt_every: usize,
+    pub data_reads: usize,
+    pub interrupted: u64,
 }
 
 #[derive(Clone)]
@@ -30,6 +34,12 @@ impl FragmentingReader {
     }
     pub fn consumed(&self) -> usize {
         self.0.lock().unwrap().pos
+    }
+    pub fn interrupt_every(&self, k: usize) {
+        self.0.lock().unwrap().interrupt_every = k;
+    }
+    pub fn interrupted(&self) -> u64 {
+        self.0.lock().unwrap().interrupted
     }
     pub fn written(&self) -> Vec<u8> {
         self.0.lock().unwrap().written.clone()
@@ -56,6 +66,13 @@ impl Read for FragmentingReader {
         }
         if buf.is_empty() {
             return Ok(0);
+        }
+        if s.interrupt_every >= 2 {
+            s.data_reads += 1;
+            if s.data_reads % s.interrupt_every == 0 {
+                s.interrupted += 1;
+                return Err(io::Error::new(io::ErrorKind::Interrupted, "injected: interrupted system call"));
+            }
         }
         let k = s.schedule[s.sched_i % s.schedule.len()].max(1);
         s.sched_i += 1;
